@@ -358,9 +358,10 @@ def r2_2(ctx: Ctx) -> RuleResult:
         def refine2(test: ast.expr, branch: bool) -> List[str]:
             ev = refine(test, branch)
             if (
-                isinstance(test, ast.Compare) and len(test.ops) == 1 and isinstance(test.ops[0], ast.Eq)
+                isinstance(test, ast.Compare) and len(test.ops) == 1 and isinstance(test.ops[0], (ast.Eq, ast.NotEq))
                 and isinstance(test.left, ast.Call) and callee_name(test.left) == "len" and test.left.args
-                and isinstance(test.comparators[0], ast.Constant) and test.comparators[0].value == 1 and branch
+                and isinstance(test.comparators[0], ast.Constant) and test.comparators[0].value == 1
+                and branch == isinstance(test.ops[0], ast.Eq)
             ):
                 p = path_of(test.left.args[0])
                 if p:
